@@ -25,14 +25,23 @@ RULE = ("estimators created with an explicit Config over seeded definitions (0-2
         "different magnitude per entry (2 and 3 readings per sensor, 2 sensors, 2 controls): flatten -> inverse gives back the held noise, "
         "inverse -> set_params -> flatten gives back the vector, both against the Lean model, and through fit with the minimiser as a parameter: "
         "the objective at the starting point is the estimator's own score, a minimiser returning its starting point leaves the noise as held, "
-        "and a second fit starts from the vector the first fit's minimiser proposed")
+        "and a second fit starts from the vector the first fit's minimiser proposed; "
+        "re-pointed stream (fixed inputs, a history): an estimator created over one model and already USED with it (score / transform / fit) is given, "
+        "with set_params, every parameter of an estimator created over ANOTHER accepted model whose controls differ (1 -> 2 controls, 2 -> 1, "
+        "same count under another name, 1 -> none), and is then fitted: get_params gives back the objects that were set, flatten gives the "
+        "magnitudes now held (Lean model over the NEW controls), fit with a minimiser that returns its starting point is started from those "
+        "magnitudes, its objective there is the score of a fresh estimator with the same parameters, and it returns an estimator with the new "
+        "model / sensor models / calibration / configuration holding the noise it was given; one pair is also fitted with scipy's own minimiser "
+        "(returned with noise naming exactly the new controls / readings, finite, process noise positive, or MinimizationFailure)")
 NOTE = ["flatten / inverse-flatten are private methods; they are called on deep copies to tie the Lean model to the code, while the property "
         "itself is judged on the public API (get_params, set_params, clone, fit)",
         "scipy.optimize.minimize is a parameter: whatever vector it proposes, the outcome must be a returned estimator satisfying the "
         "postconditions or MinimizationFailure",
         "written-order stream: the minimiser is supplied by replacing the name formak.python.minimize for the duration of one fit call (a stand-in "
         "that returns its starting point, or a fixed proposal); the oracle does not assume any layout of the vector, only that the estimator "
-        "reads back the magnitude it holds for each reading (dict equality ignores the order in which keys were written)"]
+        "reads back the magnitude it holds for each reading (dict equality ignores the order in which keys were written)",
+        "re-pointed stream: the estimator's parameters are what get_params returns; whatever else it keeps from an earlier use (a compiled filter) "
+        "is not a parameter, so an estimator holding the parameters of one created over model B is judged as an estimator over model B"]
 PARTIAL = ["scipy's minimiser and scikit-learn's clone are outside the model"]
 
 
@@ -204,6 +213,169 @@ def written_order_stream(ctx, drv, pending):
             ctx.count("written-order:fit_outcome=MinimizationFailure")
         except Exception as e:
             ctx.fail(f"fit-raises:{fk.exc_kind(e)}", f"fit neither returns nor raises MinimizationFailure: {e!r}"[:300], case)
+
+
+def repointed_definitions():
+    """Fixed (label, first definition + noises, how it is used, second definition + noises): the two models' control sets differ."""
+    dts = sympy.Symbol("dt")
+    ax, au = sympy.symbols("ax au")
+    one = (gen.Definition(dts, [ax], [au], [], {ax: ax + dts * au}, {"simple": {"r": ax}}), {"au": F(1)}, {"simple": {"r": F(1)}})
+    bp, bq, ba, bw = sympy.symbols("bp bq ba bw")
+    two = (gen.Definition(dts, [bp, bq], [ba, bw], [], {bp: bp + dts * ba, bq: bq + dts * bw},
+                          {"both": {"rp": bp, "rq": bq + bp}, "one": {"rq": bq}}),
+           {"ba": F(1, 2), "bw": F(2)}, {"both": {"rp": F(1), "rq": F(3)}, "one": {"rq": F(3, 4)}})
+    cx, cv, cu = sympy.symbols("cx cv cu")
+    other = (gen.Definition(dts, [cx, cv], [cu], [], {cx: cx + dts * cv, cv: cv + dts * cu}, {"gps": {"p": cx, "v": cv}}),
+             {"cu": F(5, 4)}, {"gps": {"p": F(3, 4), "v": F(3, 2)}})
+    ex, eu = sympy.symbols("ex eu")
+    renamed = (gen.Definition(dts, [ex], [eu], [], {ex: ex + dts * eu}, {"s": {"r": ex}}), {"eu": F(7, 4)}, {"s": {"r": F(5, 8)}})
+    fx, fv = sympy.symbols("fx fv")
+    free = (gen.Definition(dts, [fx, fv], [], [], {fx: fx + dts * fv, fv: fv * sympy.Rational(9, 10)}, {"gps": {"px": fx, "pv": fv + fx}}),
+            {}, {"gps": {"px": F(3, 4), "pv": F(5, 4)}})
+    return [("one-control-then-two", one, "score", two, False), ("two-controls-then-one", two, "transform", other, False),
+            ("one-control-then-another-name", one, "fit", renamed, True), ("one-control-then-none", one, "score", free, False)]
+
+
+def repointed_stream(ctx, drv, pending):
+    """Deterministic (consumes nothing from ctx.rng). An estimator is its parameters: one that has been used with model A and is then
+    given, with set_params, all the parameters of an estimator created over model B must fit as an estimator over model B does."""
+    from formak import python
+    from formak.exceptions import MinimizationFailure
+    from scipy.optimize import OptimizeResult
+
+    def held(p):
+        return ({str(k): float(v) for k, v in p["process_noise"].items()},
+                {k: {str(r): float(v) for r, v in rd.items()} for k, rd in p["sensor_noises"].items()})
+
+    def data(d, rows):
+        width = len(d.control) + sum(len(rd) for rd in d.sensors.values())
+        return np.array([[((5 * i + 3 * j) % 7 - 3) / 4.0 for j in range(width)] for i in range(rows)], dtype=float)
+
+    def fit_with(minimiser, est, X):
+        original = python.minimize
+        python.minimize = minimiser
+        try:
+            with fk.quiet():
+                return est.fit(X)
+        finally:
+            python.minimize = original
+
+    def returns_start_into(seen):
+        def returns_start(fun, x0, *a, **kw):
+            seen["x0"] = [float(v) for v in x0]
+            seen["f0"] = float(fun(np.array(x0, dtype=float)))
+            return OptimizeResult(x=np.array(x0, dtype=float), success=True, fun=seen["f0"], message="returned the starting point")
+        return returns_start
+
+    for label, (dA, pA, sA), use, (dB, pB, sB), real_fit in repointed_definitions():
+        desc = {"stream": "re-pointed", "label": label, "first": dA.describe(), "used-with": use, "def": dB.describe(),
+                "noise": {a: str(b) for a, b in pB.items()}, "sensor_noise": {a: {r: str(v) for r, v in b.items()} for a, b in sB.items()}}
+        want = ({a: float(b) for a, b in pB.items()}, {a: {r: float(v) for r, v in b.items()} for a, b in sB.items()})
+        magnitudes = sorted([*want[0].values()] + [v for rd in want[1].values() for v in rd.values()])
+        Lc = sorted(s.name for s in dB.control)
+        XA, XB = data(dA, 4), data(dB, 6)
+
+        def build():
+            """an estimator created over the first model, used once with it, then holding every parameter of one created over the second"""
+            with fk.quiet():
+                est = C16.make_adapter(dA, pA, sA, {}, None)
+                if use == "score":
+                    est.score(XA)
+                elif use == "transform":
+                    est.transform(XA)
+                else:
+                    try:
+                        fit_with(returns_start_into({}), est, XA)
+                    except MinimizationFailure:
+                        pass
+                given = C16.make_adapter(dB, pB, sB, {}, None).get_params()
+                est.set_params(**given)
+            return est, given
+        try:
+            ad, given = build()
+        except Exception as e:
+            ctx.fail(f"adapter-raises:{fk.exc_kind(e)}:re-pointed", repr(e)[:300], desc); continue
+        # --- get after set
+        case = dict(desc, op="set-get")
+        ctx.case(case, True); ctx.count("op=re-pointed:set-get")
+        try:
+            now = ad.get_params()
+            if set(now) != set(given) or any(now[k] is not given[k] for k in given):
+                ctx.fail("re-pointed:get-set-changes", "get_params does not give back the objects handed to set_params", case)
+        except Exception as e:
+            ctx.fail(f"get-params-raises:{fk.exc_kind(e)}:re-pointed", repr(e)[:300], case); continue
+        # --- flatten (private, on a deep copy): the magnitudes now held, over the controls of the model now held
+        case = dict(desc, op="flatten")
+        ctx.case(case, True); ctx.count("op=re-pointed:flatten")
+        try:
+            a3 = copy.deepcopy(ad)
+            flat = [float(x) for x in a3._flatten_scoring_params()]
+            idx = drv.add({"op": "flatten", "controls": Lc, "noises": noises_json(a3.process_noise, a3.sensor_noises)})
+            pending.append(("flatten", idx, flat, case))
+            if sorted(flat) != magnitudes:
+                ctx.fail("re-pointed:flatten", f"the flattened noise {flat} is not the {len(magnitudes)} magnitudes the estimator holds {want}", case)
+            back = held(a3._inverse_flatten_scoring_params(list(flat)))
+            if back != want:
+                ctx.fail("re-pointed:round-trip", f"flatten -> inverse gives {back} for an estimator holding {want}", case)
+        except Exception as e:
+            ctx.fail(f"flatten-raises:{fk.exc_kind(e)}:re-pointed", repr(e)[:300], case)
+        # --- fit with a minimiser that returns its starting point (public API only)
+        case = dict(desc, op="fit-minimiser-returns-start", X=XB.tolist())
+        ctx.case(case, True); ctx.count("op=re-pointed:fit-minimiser-returns-start")
+        try:
+            with fk.quiet():
+                own_score = float(C16.make_adapter(dB, pB, sB, {}, None).score(XB))      # a fresh estimator with the same parameters
+        except Exception as e:
+            own_score = None; ctx.count(f"re-pointed:score_raises={fk.exc_kind(e)}")
+        seen = {}
+        try:
+            res = fit_with(returns_start_into(seen), ad, XB)
+            after = res.get_params()
+            if sorted(seen["x0"]) != magnitudes:
+                ctx.fail("re-pointed:fit-start", f"the minimiser is started from {seen['x0']}, which is not the magnitudes the estimator holds {want}", case)
+            if own_score is not None and math.isfinite(own_score) and math.isfinite(seen["f0"]):
+                if abs(seen["f0"] - own_score) > 1e-9 * max(1.0, abs(own_score)):
+                    ctx.fail("re-pointed:fit-start-score", f"the objective fit hands to the minimiser is {seen['f0']!r} at the starting point, but a fresh "
+                             f"estimator with the same parameters scores {own_score!r} on the same data", case)
+            else:
+                ctx.count("re-pointed:score_undefined")
+            if any(after[k] is not given[k] for k in ("symbolic_model", "sensor_models", "calibration_map")) or \
+                    dataclasses.asdict(after["config"]) != dataclasses.asdict(given["config"]):
+                ctx.fail("fit-changes-non-noise:re-pointed", "fit changed the model, the sensor models, the calibration or the configuration", case)
+            if held(after) != want:
+                ctx.fail("re-pointed:fit-start-returned", f"a fit whose minimiser returns its starting point changed the noise from {want} to {held(after)}", case)
+            ctx.count("re-pointed:fit_outcome=returned")
+        except MinimizationFailure:
+            ctx.count("re-pointed:fit_outcome=MinimizationFailure")
+        except Exception as e:
+            ctx.fail(f"fit-raises:{fk.exc_kind(e)}:re-pointed", f"fit neither returns nor raises MinimizationFailure: {e!r}"[:300], case)
+        # --- fit with scipy's own minimiser
+        if not real_fit:
+            continue
+        case = dict(desc, op="fit", X=XB.tolist())
+        ctx.case(case, True); ctx.count("op=re-pointed:fit")
+        try:
+            a5, given5 = build()
+            with fk.quiet():
+                res = a5.fit(XB)
+            after = res.get_params()
+        except MinimizationFailure:
+            ctx.count("re-pointed:fit_outcome=MinimizationFailure"); continue
+        except Exception as e:
+            ctx.fail(f"fit-raises:{fk.exc_kind(e)}:re-pointed", f"fit neither returns nor raises MinimizationFailure: {e!r}"[:300], case); continue
+        ctx.count("re-pointed:fit_outcome=returned")
+        try:
+            pn, sn = after["process_noise"], after["sensor_noises"]
+            if any(after[k] is not given5[k] for k in ("symbolic_model", "sensor_models", "calibration_map")) or \
+                    dataclasses.asdict(after["config"]) != dataclasses.asdict(given5["config"]):
+                ctx.fail("fit-changes-non-noise:re-pointed", "fit changed the model, the sensor models, the calibration or the configuration", case)
+            if sorted(str(k) for k in pn) != Lc or any(not (math.isfinite(v_) and v_ > 0) for v_ in pn.values()):
+                ctx.fail("fit-process-noise:re-pointed", f"fitted process noise {pn} is not a finite positive magnitude per control of the model held", case)
+            if {k: sorted(map(str, rd)) for k, rd in sn.items()} != {k: sorted(rd) for k, rd in sB.items()} or \
+                    any(not math.isfinite(v_) for rd in sn.values() for v_ in rd.values()):
+                ctx.fail("fit-sensor-noise:re-pointed", f"fitted sensor noise {sn} does not name exactly the sensors/readings with finite magnitudes", case)
+        except Exception as e:
+            ctx.fail(f"fit-result-odd:{fk.exc_kind(e)}:re-pointed", f"the fitted estimator's parameters cannot be read: {e!r}"[:300], case)
 
 
 def controlless_fits(ctx):
@@ -469,6 +641,7 @@ def run(ctx):
                 ctx.fail("fit-sensor-noise", f"fitted sensor noise {sn} does not name exactly the sensors/readings with finite magnitudes", case)
     written_order_stream(ctx, drv, pending)
     controlless_fits(ctx)                     # fixed inputs; no draws from ctx.rng
+    repointed_stream(ctx, drv, pending)       # fixed inputs; no draws from ctx.rng
     ans = drv.run()
     for kind, idx, got, info in pending:
         a = ans[idx]
